@@ -77,6 +77,10 @@ func debugExtents(args []string) {
 	for _, o := range res.consumption {
 		fmt.Println("  ", o.Status, o.Key, o.Detail)
 	}
+	fmt.Println("scratch loads:", res.scratchLoads)
+	for _, o := range res.scratchObl {
+		fmt.Println("  ", o.Status, o.Key, o.Detail)
+	}
 }
 
 var xDebug bool
